@@ -81,6 +81,12 @@ Proof.
   destruct pfd; route; rewrite ?(alookup_resid_in _ _ Hr), ?Hp; reflexivity.
 Qed.
 
+Lemma slate_residual_rows (sm : seqmodel) r pfd (raw : data) c :
+  sm_ok sm -> In r (sm_resids sm) ->
+  initial_slate A sm pfd true raw r c = (if m (raw r c) then 0 else raw r c)%R /\
+  initial_slate A sm pfd false raw r c = 0%R.
+Proof. intros H1 H2. split; [now apply slate_residual_from_data | now apply slate_residual_default]. Qed.
+
 (* every other row (LHS, RHS-only, plan series) is the databox row *)
 Theorem slate_other_row (sm : seqmodel) r pfd sfd (raw : data) c :
   alookup A (sm_params sm) r = None -> ~ In r (sm_resids sm) ->
